@@ -26,6 +26,10 @@ Programs3Focus ==
   { [kind |-> (A1 :> k[1] @@ A2 :> k[2] @@ A3 :> k[3]),
      ins  |-> (A1 :> {} @@ A2 :> i[1] @@ A3 :> i[2]),
      vals |-> (A1 :> V(A1) @@ A2 :> V(A2) @@ A3 :> V(A3))] : k \in FocusKinds, i \in FocusIns }
+(* three programs for the every-transition deep replay of the quick tier *)
+Programs3Quick == { p \in Programs3Focus :
+                      \/ (p.kind[A2] = "task" /\ p.ins[A3] = {<<A2, "s.v">>})           \* the two chains ending in a task / an analysis
+                      \/ (p.kind[A3] = "task" /\ p.kind[A2] = "task" /\ p.ins[A3] = {<<A1, "s.w">>, <<A2, "s.v">>}) }
 Progs4(K, P(_)) ==
   { [kind |-> (A1 :> k1 @@ A2 :> k2 @@ A3 :> k3 @@ A4 :> k4),
      ins  |-> (A1 :> {} @@ A2 :> i2 @@ A3 :> i3 @@ A4 :> i4),
